@@ -137,6 +137,17 @@ def main():
                 except OSError: pass
             time.sleep(0.5)
             items = [(i, d, "ok", how, "B") for i in range(n)]
+        elif stage == "startup":
+            # the worker dies while the next call is starting up (executor being fetched, first tasks being submitted)
+            items = [(i, d, "ok", how, "B") for i in range(n)]
+            pids = (a.get("pids") or [])[:victims]
+
+            def late_kill():
+                time.sleep(sc.get("delay", 0.0))
+                for pid in pids:
+                    try: os.kill(pid, sig_of(how) or signal.SIGKILL); killed.append(pid)
+                    except OSError: pass
+            threading.Thread(target=late_kill, daemon=True).start()
         elif stage == "idle":
             pids = (a.get("pids") or [])[:victims]
             for pid in pids:
